@@ -169,6 +169,10 @@ class Evaluator:
             return int(n["v"])
         if k == "FloatingLiteral":
             return float(n["v"])
+        if k == "CXXThisExpr":
+            if "this" in self.env:
+                return self.env["this"]
+            raise Unknown("this")
         if k == "StringLiteral":
             return ("str", n.get("v"))
         if k == "CXXBoolLiteralExpr":
@@ -326,6 +330,8 @@ class Evaluator:
                 auto = bool(g0.d.get("static")) and g0.kind == "function" and g0 is not f and getattr(self, "_depth", 0) < 4
             if (nm in inl or auto) and n.get("callee") and n["callee"]["mn"] in self.prog.functions:
                 g = self.prog.functions[n["callee"]["mn"]]
+                if getattr(self, "_depth", 0) > 30:
+                    raise Unknown("inlining depth exceeded in %s (unbounded recursion)" % nm)
                 args = [self.ev(a) for a in f.args(n)]
                 pnames = {q["name"] for q in g.params}
                 glocals = set(pnames)
@@ -355,7 +361,9 @@ class Evaluator:
                         else:
                             prefix = self.lkey(on_) + "."
                         root = lambda key: key.split(".")[0].split("[")[0]
-                        senv = {k_: v for k_, v in senv.items() if root(k_) not in fields}
+                        senv = {k_: v for k_, v in senv.items() if root(k_) not in fields and k_ != "this"}
+                        if (on_.get("ct") or "").rstrip().endswith("*"):
+                            senv["this"] = pv
                         for k_, v in self.env.items():
                             if k_.startswith(prefix) and root(k_[len(prefix):]) in fields:
                                 senv[k_[len(prefix):]] = v
